@@ -3,16 +3,20 @@ property's clauses (Exp(Log X) = X as transformations, |rotation part| <= pi, Lo
 Log(Inv X) = -Log X, Log(Exp x) = x) evaluated on the implementation inside the search.  Every element is also
 evaluated as a later call on an object with a history (other value, in-place overwrite) and as an item of batches that
 mix special and generic elements in several shapes / memory layouts; those results must equal the fresh single-element
-result or satisfy the clauses themselves."""
+result or satisfy the clauses themselves.  Process-global state (anything remembered between calls outside the objects:
+caches keyed by nothing, pinned by the first / previous call's dtype, group, op or shape) is searched by replaying a
+sample of the elements in FRESH interpreters under several call orders (all float32 before all float64 and the reverse,
+strict alternation, an Exp of the other dtype as the very first call) and comparing with this process's results."""
 import math
 from ..common import *
 from ..lie import *
 from .c01 import K_EPS, K_SQRT, direction, regime
 
 RULE = ('X = (unit quaternion from axis-angle, translation, scale); angle from {0, ladder around eps and sqrt(eps), O(1), ladder approaching pi from '
-        'both sides incl. |w| around eps}, both hemispheres; translation 1e-6..1e6; scale e^-8..e^8; a case is (group, dtype, X); non-trivial = '
+        'both sides incl. |w| around eps, the same ladders around the OTHER dtype\'s eps}, both hemispheres; translation 1e-6..1e6; scale e^-8..e^8; a case is (group, dtype, X); non-trivial = '
         'not the identity; distinct by value; tolerances %d eps (rotation, log-scale), %d sqrt(eps) (translation block); each X also as a later call on a '
-        'reused, overwritten LieTensor (Log, Exp, Inv) and as an item of mixed batches (shapes, strided / transposed / expanded views)' % (K_EPS, K_SQRT))
+        'reused, overwritten LieTensor (Log, Exp, Inv), as an item of mixed batches (shapes, strided / transposed / expanded views) and, for a sample, '
+        'in fresh interpreters under other call orders (dtype blocks in both orders, alternation, Exp first)' % (K_EPS, K_SQRT))
 
 
 def gen_angle(rng, eps, kind):
@@ -38,10 +42,13 @@ def gen_angle(rng, eps, kind):
     raise ValueError(kind)
 
 
-ANG = ['zero', 'eps', 'sqrteps', 'tiny', 'one', 'nearpi', 'pi-eps', 'beyondpi', 'far']
+# '-x': the ladder around the thresholds of the OTHER dtype (float64 elements around the float32 eps and vice versa)
+ANG = ['zero', 'eps', 'sqrteps', 'tiny', 'one', 'nearpi', 'pi-eps', 'beyondpi', 'far', 'eps-x', 'sqrteps-x', 'pi-eps-x']
 
 
 def gen_X(rng, g, eps, kind, torch, dtype, unit_scale=False):
+    if kind.endswith('-x'):
+        eps, kind = (2.0 ** -23 if eps < 1e-10 else 2.0 ** -52), kind[:-2]
     ang = gen_angle(rng, eps, kind)
     ax = direction(rng) if rng.random() < 0.8 else rng.choice([[1.0, 0, 0], [0, 1.0, 0], [0, 0, -1.0]])
     s, c = math.sin(ang / 2), math.cos(ang / 2)
@@ -416,6 +423,155 @@ def empty_batch(pp, torch, g, dname):
     return None
 
 
+# ---- fresh interpreters: process-global state ----------------------------------------------------------------------
+# A step is dict(g, dtype, X[, batched, form]) -> Log X, Log(Inv X), Exp(Log X), or dict(g, dtype, x, exp=True[, batched])
+# -> Exp x, Log(Exp x).  A schedule (list of steps) is executed in order by a NEW python process, so that whatever the
+# implementation remembers between calls outside its arguments is set by the schedule's own first / previous calls.
+MARK = '@@C02-FRESH@@'
+
+
+def fresh_worker():
+    """body of the fresh interpreter: read the schedule from stdin, write the per-step results to stdout"""
+    import json
+    steps = json.load(sys.stdin)['steps']
+    pp = import_pypose()
+    import torch
+    res = []
+    for st in steps:
+        g, dtype = st['g'], (torch.float64 if st['dtype'] == 'float64' else torch.float32)
+        call = (lambda A, op: getattr(A, op)()) if st.get('form', 'method') == 'method' else (lambda A, op: getattr(pp, op)(A))
+        flat = lambda A: A.tensor().detach().reshape(-1).tolist()
+        try:
+            if st.get('exp'):
+                raw = torch.tensor([st['x']] if st.get('batched') else st['x'], dtype=dtype)
+                snap = raw.clone()
+                T = pp.LieTensor(raw, ltype=getattr(pp, ALGS[GROUPS.index(g)] + '_type'))
+                E = call(T, 'Exp')
+                r = dict(E=flat(E), LE=flat(call(E, 'Log')))
+            else:
+                raw = torch.tensor([st['X']] if st.get('batched') else st['X'], dtype=dtype)
+                snap = raw.clone()
+                T = pp.LieTensor(raw, ltype=getattr(pp, g + '_type'))
+                L = call(T, 'Log')
+                r = dict(L=flat(L), LI=flat(call(call(T, 'Inv'), 'Log')), E=flat(call(L, 'Exp')))
+            r['mut'] = not torch.equal(snap, raw)
+        except Exception as e:
+            r = dict(err=repr(e))
+        res.append(r)
+    sys.stdout.write('\n' + MARK + json.dumps(res) + '\n')
+    sys.stdout.flush()
+
+
+def run_fresh(steps, timeout=900):
+    """-> list of per-step results of the schedule executed by a new interpreter (same pypose tree), or a text on failure"""
+    import json
+    try:
+        p = subprocess.run([sys.executable, '-W', 'ignore', '-m', 'harness.props.c02', '--fresh-worker'], input=json.dumps(dict(steps=steps)),
+                           capture_output=True, text=True, cwd=VERIF, timeout=timeout)
+    except subprocess.TimeoutExpired:
+        return 'the fresh interpreter did not finish %d steps within %d s' % (len(steps), timeout)
+    for line in p.stdout.splitlines():
+        if line.startswith(MARK):
+            return json.loads(line[len(MARK):])
+    return 'the fresh interpreter ended with status %s: %s' % (p.returncode, p.stderr[-1500:])
+
+
+def step_text(st):
+    if st.get('exp'):
+        return 'Exp, Log(Exp) of the %s %s vector %s%s' % (st['dtype'], ALGS[GROUPS.index(st['g'])], st['x'], ' (batch of 1)' if st.get('batched') else '')
+    return 'Log, Log(Inv), Exp(Log) of the %s %s element %s%s' % (st['dtype'], st['g'], st['X'], ' (batch of 1)' if st.get('batched') else '')
+
+
+def judge_step(pp, torch, st, r, single=None):
+    """result r of a step obtained in a fresh interpreter: equal to what this process gives for the same input, or else
+    judged by the property's clauses"""
+    g, dname = st['g'], st['dtype']
+    dtype = torch.float64 if dname == 'float64' else torch.float32
+    eps = float(torch.finfo(dtype).eps)
+    if 'err' in r:
+        return 'raised %s' % r['err']
+    if r.get('mut'):
+        return 'Log / Inv / Exp changed the tensor they were called on'
+    if st.get('exp'):
+        x = st['x']
+        E = impl_exp(pp, torch, g, x, dtype)
+        LE = pp.LieTensor(torch.tensor(E, dtype=dtype), ltype=getattr(pp, g + '_type')).Log().tensor().tolist()
+        if same(r['E'], E) and same(r['LE'], LE):
+            return None
+        if any(not math.isfinite(v) for v in r['E'] + r['LE']):
+            return 'Exp x = %s, Log(Exp x) = %s not finite' % (r['E'], r['LE'])
+        # Log(Exp x) = x (rotation part of x shorter than pi by construction), and Exp(Log(Exp x)) = Exp x
+        tols = dict(tolerances(g, x, eps))
+        bad = [j for j in tols if abs(r['LE'][j] - x[j]) > 8 * tols[j]]
+        if bad:
+            return 'Log(Exp x) != x in components %s: %s' % (bad, r['LE'])
+        return roundtrip(pp, torch, g, dname, r['E'], out=r['LE'])
+    if len(r['L']) != ADIM[g] or len(r['LI']) != ADIM[g] or len(r['E']) != GDIM[g]:
+        return 'results have %d, %d, %d components' % (len(r['L']), len(r['LI']), len(r['E']))
+    return judge_item(pp, torch, g, dname, st['X'], single, r['L'], r['LI'], r['E'])
+
+
+def fresh_fail(pp, torch, steps, single=None):
+    """the LAST step of the schedule, executed in a fresh interpreter after the others -> failure text or None"""
+    res = run_fresh(steps)
+    if isinstance(res, str):
+        return res
+    if len(res) != len(steps):
+        return 'the fresh interpreter answered %d of %d steps' % (len(res), len(steps))
+    why = judge_step(pp, torch, steps[-1], res[-1], single)
+    if why:
+        r = res[-1]
+        why = 'in a fresh interpreter, %s%s gives %s: %s' % (
+            step_text(steps[-1]), (' as step %d, after [%s]' % (len(steps), '; '.join(step_text(s) for s in steps[:-1][:3]) + ('; ...' if len(steps) > 4 else ''))) if len(steps) > 1 else ' as the very first call',
+            {k: r[k] for k in ('L', 'LI', 'E', 'LE') if k in r}, why)
+    return why
+
+
+def shrink_fresh(pp, torch, steps, k, single=None):
+    """step k of the schedule failed: the shortest of a few sub-schedules ending in step k that still fails (each tried in
+    its own fresh interpreter) -> (sub-schedule, failure text) or None when none of them fails again"""
+    cands = []
+    other = [s for s in steps[:k] if s['dtype'] != steps[k]['dtype']]
+    for pre in ([], steps[:1], other[:1], other[-1:], steps[max(0, k - 1):k]):
+        c = list(pre) + [steps[k]]
+        if c not in cands and len(c) <= k + 1:
+            cands.append(c)
+    cands.append(steps[:k + 1])
+    for c in cands:
+        why = fresh_fail(pp, torch, c, single)
+        if why:
+            return c, why
+    return None
+
+
+def schedules(hr, elems):
+    """elems: steps (dict(g, dtype, X)) in the order this process evaluated them -> {name: schedule}; every schedule
+    contains every element once"""
+    f32 = [e for e in elems if e['dtype'] == 'float32']
+    f64 = [e for e in elems if e['dtype'] == 'float64']
+
+    def alternate(a, b):
+        out = []
+        for i in range(max(len(a), len(b))):
+            out += a[i:i + 1] + b[i:i + 1]
+        return out
+
+    def warm(dname):
+        w = []
+        for g in hr.sample(GROUPS, len(GROUPS)):
+            x = [hr.uniform(-1.5, 1.5) for _ in range(ADIM[g])]
+            w.append(dict(g=g, dtype=dname, x=[float(v) for v in x], exp=True, batched=hr.random() < 0.5, form=hr.choice(['method', 'function'])))
+        return w
+
+    vary = lambda es: [dict(e, batched=hr.random() < 0.3, form=hr.choice(['method', 'function'])) for e in es]
+    return {
+        'float32-block-first': f32 + f64,
+        'float64-block-first': f64 + f32,
+        'exp-float32-first-then-alternating': warm('float32') + alternate(vary(f64[::-1]), vary(f32[::-1])),
+        'exp-float64-first-then-alternating': warm('float64') + alternate(vary(f32[::-1]), vary(f64[::-1])),
+    }
+
+
 def key_of(g, dname, X, eps):
     t, q, s = split_elt(g, X)
     vn = math.sqrt(sum(a * a for a in q[:3]))
@@ -538,6 +694,42 @@ def run(ctx):
                 ctx.count('batch:%s' % layout)
                 for k, X, why in run_batch(pp, torch, g, dname, b, [(meta[i]['impl'], meta[i]['li'], meta[i]['back']) for i in part]):
                     report('batch:%s:%s:%s' % (g, dname, layout), '%s [%s %s] X=%s' % (why, g, dname, X), dict(g=g, dtype=dname, X=X, batch=b))
+    # fresh interpreters: one element per (group, dtype, kind) and a random sample, replayed under other call orders; the
+    # results must be those of this process (which the model is tied to) or satisfy the clauses
+    by = {}
+    for i, m in enumerate(meta):
+        by.setdefault((m['g'], m['dtype'], m['kind']), []).append(i)
+    pick = [hr.choice(v) for v in by.values()]
+    rest = sorted(set(range(len(meta))) - set(pick))
+    pick = sorted(pick + hr.sample(rest, min(len(rest), ctx.scale(60, 600))))
+    elems = [dict(g=meta[i]['g'], dtype=meta[i]['dtype'], X=meta[i]['X'], id=i) for i in pick]
+    single_of = lambda st: (meta[st['id']]['impl'], meta[st['id']]['li'], meta[st['id']]['back']) if 'id' in st else None
+    scheds = schedules(hr, elems) if elems else {}
+    with ThreadPoolExecutor(max_workers=max(1, min(NCPU, len(scheds) or 1))) as ex:
+        answers = dict(zip(scheds, ex.map(run_fresh, scheds.values())))
+    for name, steps in scheds.items():
+        res = answers[name]
+        if isinstance(res, str) or len(res) != len(steps):
+            why = res if isinstance(res, str) else 'the fresh interpreter answered %d of %d steps' % (len(res), len(steps))
+            report('fresh-process:%s' % name, 'schedule %s (first step: %s): %s' % (name, step_text(steps[0]), why),
+                   dict(g=steps[0]['g'], dtype=steps[0]['dtype'], X=steps[0].get('X', steps[0].get('x')), fresh=dict(steps=steps)))
+            continue
+        ctx.count('fresh:%s' % name, len(steps))
+        for k, st in enumerate(steps):
+            why = judge_step(pp, torch, st, res[k], single_of(st))
+            if not why:
+                continue
+            key = 'fresh-process:%s:%s' % (st['g'], st['dtype'])
+            if key in reported:
+                ctx.count('fail:' + key)
+                continue
+            sh = shrink_fresh(pp, torch, steps, k, single_of(st))
+            if sh:
+                sub, why = sh
+            else:
+                sub, why = steps[:k + 1], 'observed once as step %d of the schedule %s, not again in a re-run: %s' % (k + 1, name, why)
+            report(key, '%s [%s %s, schedule %s]' % (why, st['g'], st['dtype'], name), dict(g=st['g'], dtype=st['dtype'], X=st.get('X', st.get('x')), fresh=dict(steps=sub)))
+    ctx.notes.append('%d elements replayed in %d fresh interpreters under other call orders (%s)' % (len(elems), len(scheds), ', '.join(scheds)))
     ctx.notes.append('%d batches (mixed special/generic items, 2-D shapes, strided / transposed / expanded views, empty) compared item by item with single-element calls; every case also through Log / Exp / Inv histories on one object' % nb)
     r = run_interval('C02', 'Model.LieGroup Model.LieExp Model.LieLog', cases)
     for name, out in r['broken']:
@@ -551,10 +743,21 @@ def run(ctx):
         mm = dict(family='log:' + m['g'], case=dict(m, components=[c for j, c in r['bad'] if j == i]), detail='')
         ctx.mismatches.append(mm)
         why = confirm(pp, torch, m['g'], m['dtype'], m['X'])
+        rep = dict(g=m['g'], dtype=m['dtype'], X=m['X'])
+        if not why:
+            # the value that was tied came out of this run's call sequence; when a call made now gives another one the
+            # implementation keeps state between calls: judge the observed value, and look for the shortest sequence
+            # (previous case, this case) that shows it in a fresh interpreter
+            seen = confirm(pp, torch, m['g'], m['dtype'], m['X'], out=m['impl'], li=m['li'])
+            if seen:
+                steps = [dict(g=p['g'], dtype=p['dtype'], X=p['X']) for p in meta[max(0, i - 1):i]] + [dict(rep)]
+                rep = dict(rep, fresh=dict(steps=steps))
+                why = fresh_fail(pp, torch, steps) or 'Log gave %s in this run (after %s), another value when called again: %s' % (
+                    m['impl'], '; '.join(step_text(s) for s in steps[:-1]) or 'nothing', seen)
         if why:
             mm['explained'] = True
             eps = 2.0 ** -52 if m['dtype'] == 'float64' else 2.0 ** -23
-            ctx.violation(key_of(m['g'], m['dtype'], m['X'], eps), 'Log(%s) [%s %s]: %s' % (m['X'], m['g'], m['dtype'], why), dict(g=m['g'], dtype=m['dtype'], X=m['X']))
+            ctx.violation(key_of(m['g'], m['dtype'], m['X'], eps), 'Log(%s) [%s %s]: %s' % (m['X'], m['g'], m['dtype'], why), rep)
     for key in ctx.known:
         if key in ctx.known_hit:
             continue
@@ -574,9 +777,15 @@ def replay(ctx, c):
         return roundtrip(pp, torch, c['g'], c['dtype'], c['X'])
     if c.get('empty'):
         return empty_batch(pp, torch, c['g'], c['dtype'])
+    if c.get('fresh'):
+        return fresh_fail(pp, torch, c['fresh']['steps'])
     if c.get('hist'):
         return run_history(pp, torch, c['g'], c['dtype'], c['hist'], c['X'])
     if c.get('batch'):
         fails = run_batch(pp, torch, c['g'], c['dtype'], c['batch'])
         return '; '.join(w for _, _, w in fails[:3]) if fails else None
     return confirm(pp, torch, c['g'], c['dtype'], c['X'])
+
+
+if __name__ == '__main__' and '--fresh-worker' in sys.argv:
+    fresh_worker()
